@@ -54,6 +54,8 @@ def shards(tier, seed):
             sc = dict(sc, shape=perms3[(i + seed) % len(perms3)])
         elif "shape" not in sc and (i + seed) % 2 == 1:
             sc = dict(sc, shape=(48, 36))
+        if sc["body"] != "rod" and (i + seed) % 2 == 0:
+            sc = dict(sc, order="interactor-first", name=sc["name"] + "+interactor-first")
         dts = ["float64", "float32"] if tier == "thorough" else (["float64"] if (i + seed) % 2 == 0 else ["float32"])
         for dt in dts:
             out.append({"name": f"{sc['name']}-{dt}", "mode": "run", "scen": sc, "dtype": dt})
@@ -142,21 +144,32 @@ DT = 2e-3
 def step(o, U):
     flow, sim, inter, ts = o["flow"], o["sim"], o["inter"], o["ts"]
     t = np.float64(flow.time)
-    for _ in range(2):
-        t = ts.step(sim, t, np.float64(DT / 2))
-        inter.time_step(dt=DT / 2)
-    inter()
-    flow.time_step(dt=DT, free_stream_velocity=U)
+    if o["sc"].get("order", "body-first") == "body-first":
+        # order of the repository's restart test / rod examples: body sub-steps (+ interactor clock), interaction, flow
+        for _ in range(2):
+            t = ts.step(sim, t, np.float64(DT / 2))
+            inter.time_step(dt=DT / 2)
+        inter()
+        flow.time_step(dt=DT, free_stream_velocity=U)
+    else:
+        # order of the rigid-body examples (flow past cylinder): the interactor consumes the STORED velocity mismatch first
+        inter.time_step(dt=DT)
+        inter()
+        flow.time_step(dt=DT, free_stream_velocity=U)
+        for _ in range(2):
+            t = ts.step(sim, t, np.float64(DT / 2))
 
 
-NAMES = ("vorticity", "velocity", "time", "position", "velocity_b", "directors", "omega", "pos_mismatch", "marker_force")
+NAMES = ("vorticity", "velocity", "time", "position", "velocity_b", "directors", "omega", "pos_mismatch", "marker_force", "vel_mismatch")
+CHECKPOINTED = ("vorticity", "velocity", "time", "position", "velocity_b", "directors", "omega", "pos_mismatch", "vel_mismatch")
 
 
 def snap(o):
     b, flow, inter = o["body"], o["flow"], o["inter"]
     return [np.array(flow.vorticity_field, np.float64), np.array(flow.velocity_field, np.float64), np.array([flow.time], np.float64),
             np.array(b.position_collection, np.float64), np.array(b.velocity_collection, np.float64), np.array(b.director_collection, np.float64),
-            np.array(b.omega_collection, np.float64), np.array(inter.lag_grid_position_mismatch_field, np.float64), np.array(inter.lag_grid_forcing_field, np.float64)]
+            np.array(b.omega_collection, np.float64), np.array(inter.lag_grid_position_mismatch_field, np.float64), np.array(inter.lag_grid_forcing_field, np.float64),
+            np.array(inter.lag_grid_velocity_mismatch_field, np.float64)]
 
 
 def scratch(o):
@@ -266,6 +279,12 @@ def _run(sh, rec):
             rec.count("restart_points")
             if float(tb) != float(r["flow"].time) or float(tb) != float(traj[k][2][0]):
                 rec.violation("restored-time-wrong", f"{sc['name']} k={k}: flow time {r['flow'].time} body time {tb} expected {traj[k][2][0]}", {"k": k})
+            # the public state named by the property must be back bit for bit right after loading, before any step
+            for nm, a, b in zip(NAMES, snap(r), traj[k]):
+                if nm in CHECKPOINTED and not util.bits_equal(a, b):
+                    rec.violation(f"state-not-restored:{nm}", f"{sc['name']} {dtype}: after loading checkpoint {k} '{nm}' differs from the state that was saved "
+                                  f"(max diff {util.maxabs(a - b):.3g})", {"scen": sc, "k": k, "field": nm})
+            rec.count("post_load_state_comparisons")
             worst = 0.0
             bad = None
             for j in range(k, N):
